@@ -84,10 +84,15 @@ def build(rng):
                 mods.append(("control", cs))
         else:
             r_ = rng.random()
-            if r_ < 0.4:
+            if r_ < 0.35:
                 mods.append(("power_lit", rng.randint(2, 9)))
-            elif r_ < 0.8:
+            elif r_ < 0.6:
                 mods.append(("power_var", "n"))
+            elif r_ < 0.8:
+                # exponent expressions that the CFG builder rewrites (comptime, conditional, walrus,
+                # short-circuit): the modifier must use the rewritten expression
+                mods.append(("power_expr", rng.choice(["comptime(3)", "(n if fl > 0.25 else n + n)", "(mw := n)",
+                                                       "n * (n if kk > 1 else n + n)", "(n if fl > 0.1 and kk > 2 else n * n)"])))
             else:
                 # exponent computed from a captured non-copyable value that the body uses too
                 mods.append(("power_expr", "cnt(ar)"))
@@ -292,6 +297,8 @@ def judge_text(ctx, text, mods, gates, nested):
                     src.append(("ControlModifier", mm[1]))
                 elif mm[0] == "power_lit":
                     src.append(("PowerModifier", ("lit", mm[1])))
+                elif mm[0] == "power_expr" and mm[1] == "comptime(3)":
+                    src.append(("PowerModifier", ("lit", 3)))
                 else:
                     src.append(("PowerModifier", ("var", mm[1])))
             got = [(c[0], c[1] if c[0] == "ControlModifier" else None) for c in emitted]
